@@ -1,2 +1,3 @@
 import Siot.Basic
 import Siot.Props.C14
+import Siot.Props.C16
